@@ -15,13 +15,15 @@ class IndentationFeatures(object):
     @property
     def is_fitted(self):
         if self.is_valid:
-            return self.dataset.fit_properties["success"]
+            # fit properties may hold settings only (no fit results yet)
+            return self.dataset.fit_properties.get("success", False)
         else:
             return False
 
     @property
     def is_valid(self):
-        return bool(self.dataset.fit_properties)
+        fp = self.dataset.fit_properties
+        return bool(fp) and "x_axis" in fp and "y_axis" in fp
 
     @property
     def has_contact_point(self):
